@@ -205,7 +205,7 @@ impl Prop for C04 {
     fn strategy(_tier: Tier, _shard: u32) -> BoxedStrategy<Case> {
         special_cfg()
             .prop_flat_map(|special| {
-                let bpe = table_strategy(40).prop_flat_map(|(_, table)| {
+                let bpe = prop_oneof![12 => table_strategy(40), 1 => table_strategy(200)].prop_flat_map(|(_, table)| {
                     let n = table.entries.len();
                     (max_vocab_strategy(n), any::<bool>()).prop_map(move |(max_vocab, graphemes)| Kind::Bpe {
                         table: table.clone(),
